@@ -439,3 +439,65 @@ Definition model_instanceof (l : lop) (r : rop) : Z * list Z :=
 
 Definition model_order (op : Z) (l : lop) (r : rop) : Z * list Z :=
   if op =? 0 then model_in l r else model_instanceof l r.
+
+(* ------------------------------------------------------------------ *)
+(* which error wins, and what was evaluated before it: the order of otto's
+   evaluators (cmplEvaluateNode*Expression), by scenario id (the harness holds
+   the JavaScript text of each id).  (class, index of the marked token the error
+   is positioned at or 0, log of side effects); class 90 = the exception of an
+   operand's own toString.  se(n) logs n, TS/TT are objects whose toString logs 9
+   (TT then throws), NF = 5, U undefined, O = {k: 1, nf: 1}, zz* undeclared *)
+Definition model_eval (id : Z) : option (Z * Z * list Z) :=
+  match id with
+  | 1 => Some (4, 2, [])   (* new NF(zz) *)
+  | 2 => Some (4, 2, [1])   (* new NF(se(1), zz) *)
+  | 3 => Some (6, 1, [1; 2])   (* new NF(se(1), se(2)) *)
+  | 4 => Some (4, 1, [1])   (* new zz1(se(1)) -- cmplEvaluateNodeNewExpression evaluates the arguments before callee.resolve() *)
+  | 5 => Some (6, 2, [])   (* new NF(U.x) *)
+  | 6 => Some (4, 2, [])   (* NF(zz) *)
+  | 7 => Some (6, 1, [1; 2])   (* NF(se(1), se(2)) *)
+  | 8 => Some (4, 1, [])   (* zz1(se(1)) *)
+  | 9 => Some (4, 2, [1])   (* O.nf(se(1), zz) *)
+  | 10 => Some (6, 1, [1])   (* O.nf(se(1)) *)
+  | 11 => Some (6, 1, [])   (* U.m(se(1)) *)
+  | 12 => Some (6, 1, [1; 2])   (* O[se(1)](se(2)) *)
+  | 13 => Some (4, 1, [])   (* zz1 in zz2 *)
+  | 14 => Some (4, 1, [1])   (* se(1) in zz2 *)
+  | 15 => Some (4, 1, [])   (* zz1 instanceof zz2 *)
+  | 16 => Some (6, 0, [1])   (* se(1) instanceof NF *)
+  | 17 => Some (4, 1, [])   (* delete zz1[se(1)] *)
+  | 18 => Some (6, 1, [1])   (* delete U[se(1)] *)
+  | 19 => Some (4, 2, [])   (* U[zz] *)
+  | 20 => Some (6, 1, [1])   (* U[se(1)] *)
+  | 21 => Some (4, 1, [])   (* zz1 += se(1) *)
+  | 22 => Some (6, 1, [])   (* U.x += se(1) *)
+  | 23 => Some (6, 1, [])   (* U.x = se(1) *)
+  | 24 => Some (4, 1, [])   (* zz1.x = se(1) *)
+  | 25 => Some (6, 1, [])   (* O.k.z.w = se(1) *)
+  | 26 => Some (6, 1, [1])   (* U[se(1)] = se(2) *)
+  | 27 => Some (6, 2, [])   (* NF(U.x, se(1)) *)
+  | 28 => Some (4, 1, [1])   (* se(1) + zz1 + se(2) *)
+  | 29 => Some (4, 1, [1])   (* [se(1), zz1, se(2)] *)
+  | 30 => Some (4, 1, [1])   (* ({a: se(1), b: zz1, c: se(2)}) *)
+  | 31 => Some (6, 1, [9])   (* U[TS] -- the message of the TypeError is built with memberValue.string() before the panic *)
+  | 32 => Some (6, 1, [9])   (* U[TS] = se(1) -- the message of the TypeError is built with memberValue.string() before the panic *)
+  | 33 => Some (6, 1, [9])   (* delete U[TS] -- the message of the TypeError is built with memberValue.string() before the panic *)
+  | 34 => Some (6, 1, [9])   (* NF[TS]() *)
+  | 35 => Some (6, 0, [1])   (* se(1) in NF *)
+  | 36 => Some (6, 1, [])   (* O.nf.x.y(se(1)) *)
+  | 37 => Some (4, 2, [1])   (* new O.nf(se(1), zz) *)
+  | 38 => Some (4, 1, [])   (* zz1[se(1)] *)
+  | 39 => Some (4, 1, [])   (* zz1(zz2) *)
+  | 40 => Some (4, 2, [])   (* zz1 = zz2 *)
+  | 41 => Some (6, 1, [1])   (* O.k.z[se(1)] = se(2) *)
+  | 42 => Some (4, 1, [])   (* zz1 -= zz2 *)
+  | 43 => Some (4, 1, [1])   (* O[se(1)] += zz2 *)
+  | 44 => Some (90, 0, [9])   (* U[TT] -- the message of the TypeError is built with memberValue.string() before the panic *)
+  | 45 => Some (4, 2, [])   (* new zz1(zz2) -- cmplEvaluateNodeNewExpression evaluates the arguments before callee.resolve() *)
+  | 46 => Some (90, 0, [1; 9])   (* NF(se(1), TT + 1) *)
+  | 47 => Some (6, 1, [])   (* new U.C(se(1)) *)
+  | 48 => Some (4, 1, [])   (* zz1.m(se(1)) *)
+  | 49 => Some (4, 1, [1])   (* se(1), zz1, se(2) *)
+  | 50 => Some (90, 0, [1; 9])   (* new NF(se(1), TT + 1) *)
+  | _ => None
+  end.
